@@ -77,7 +77,7 @@ bytes apply_edits(const bytes &file, const std::string &edits)
   return f;
 }
 
-static bytes run_batch(const std::vector<bytes> &files, const std::vector<bytes> &keys, size_t lo, size_t hi, int T, int chunk)
+static bytes run_batch(const std::vector<bytes> &files, const std::vector<bytes> &keys, size_t lo, size_t hi, int T, int chunk, int refill)
 {
   Ser s;
   for (size_t i = lo; i < hi; i++)
@@ -86,6 +86,7 @@ static bytes run_batch(const std::vector<bytes> &files, const std::vector<bytes>
     wapi::PipeCfg pc;
     pc.T = T;
     pc.chunk = chunk;
+    pc.refill = refill;
     wapi::OpOut v = wapi::verify(files[i], key, pc, true);
     wapi::OpOut d = wapi::decrypt(files[i], key, pc);
     s.u8(v.ret);
@@ -126,14 +127,14 @@ static void decode_batch(const bytes &payload, std::vector<DV> &out, size_t lo, 
   }
 }
 
-std::vector<DV> batch_dv(const std::vector<bytes> &files, const std::vector<bytes> &keys, int T, int chunk)
+std::vector<DV> batch_dv(const std::vector<bytes> &files, const std::vector<bytes> &keys, int T, int chunk, int refill)
 {
   std::vector<DV> out(files.size());
   const size_t B = 256;
   for (size_t lo = 0; lo < files.size(); lo += B)
   {
     size_t hi = std::min(files.size(), lo + B);
-    ChildResult r = run_in_child([&]() { return run_batch(files, keys, lo, hi, T, chunk); }, 120);
+    ChildResult r = run_in_child([&]() { return run_batch(files, keys, lo, hi, T, chunk, refill); }, 120);
     if (r.status == CH_OK)
     {
       decode_batch(r.payload, out, lo, hi);
@@ -142,7 +143,7 @@ std::vector<DV> batch_dv(const std::vector<bytes> &files, const std::vector<byte
     // attribute: one child per file
     for (size_t i = lo; i < hi; i++)
     {
-      ChildResult q = run_in_child([&]() { return run_batch(files, keys, i, i + 1, T, chunk); }, 60);
+      ChildResult q = run_in_child([&]() { return run_batch(files, keys, i, i + 1, T, chunk, refill); }, 60);
       if (q.status == CH_OK)
         decode_batch(q.payload, out, i, i + 1);
       else
